@@ -43,6 +43,8 @@ Invocations ==
           t \in {"xrun", "hexsim"}, o \in {"-t", "--trace", "--max-cycles"}, p \in OptPos, x \in {7, 255, 256}}
   \cup {[tool |-> t, src |-> "accepted", opt |-> o, pos |-> "before", pre |-> "absent", xv |-> x, via |-> "class"] :
           t \in {"xrun", "hexsim"}, o \in {"-t", "--max-cycles"}, x \in ReadVals}
+  \* programs that read a FILE stream (simin1) to its end and exit with the number of bytes it held (xv = 0: there is no such file)
+  \cup {[tool |-> t, src |-> "accepted", opt |-> "none", pos |-> "after", pre |-> "absent", xv |-> x, via |-> "fileread"] : t \in {"xrun", "hexsim"}, x \in {0, 3, 200}}
   \* an image larger than 200000 bytes (but well inside the 200000-word memory)
   \cup {[tool |-> "hexsim", src |-> "accepted", opt |-> "none", pos |-> "after", pre |-> "absent", xv |-> 5, via |-> "big"]}
 WellFormed(i) == ~(i.opt = "none" /\ i.pos = "before")      \* position is meaningless without the option
